@@ -124,6 +124,8 @@ class Renderer:
             c = t(f["c"])
             return {"if": "if (%s) ;", "while": "while (%s) ;", "do": "do ; while (%s);", "for": "for (; %s; ) ;",
                     "switch": "switch (%s) { default: ; }"}[f["kw"]] % c
+        if fm == "cinit":
+            return "int zv = (%s == 0);" % self.expr(f["of"])
         if fm == "sinit":
             return "%s = %s;" % (self.decl(f["ty"], "zv"), t(f["o"]))
         if fm == "spec":
